@@ -58,11 +58,35 @@ func runsFor(prop, tier string) []run {
 		two.Punch = true
 		two.WShapes = [][2]int{{0, 8}, {8, 8}, {0, 16}, {3, 2}, {4, 8}, {6, 4}, {0, 12}}
 		two.RShapes = [][2]int{{0, 16}, {4, 8}}
+		chain := base
+		chain.InitOps = []string{"W:0:24", "SnapU", "W:4:8", "SnapA", "W:12:12", "SnapA", "W:0:8"}
+		chain.MaxSnaps = 6
+		chainP := chain
+		chainP.Punch = true
+		chainP.InitOps = []string{"W:0:16", "SnapA", "W:8:16", "SnapU", "W:4:8", "SnapA", "W:0:24", "SnapA", "W:12:4"}
+		chainP.MaxSnaps = 7
+		// written with reclamation off: shadowed duplicates (non-adjacent ones included) still exist when a reload or
+		// reopen preloads the map with reclamation on
+		dups := base
+		dups.InitOps = []string{"W:0:24", "SnapA", "W:0:8", "W:16:8"}
+		dups.MaxSnaps = 3
+		dups.WShapes = [][2]int{{0, 8}, {8, 8}, {16, 8}, {4, 8}, {0, 24}}
+		dups2 := dups
+		dups2.InitOps = []string{"W:0:24", "SnapU", "W:0:24", "SnapA", "W:16:8", "W:0:8", "SnapA", "W:8:8"}
+		dups2.MaxSnaps = 5
+		few := base
+		few.WShapes = [][2]int{{0, 8}, {8, 16}, {0, 24}, {3, 2}, {7, 1}, {4, 8}, {6, 12}, {12, 12}, {20, 4}}
+		fewP := few
+		fewP.Punch = true
 		return []run{
-			{"3blk-nopunch", base, pick(4, 6), minutes(pickf(1.2, 9))},
-			{"3blk-punch", on, pick(4, 6), minutes(pickf(1.2, 9))},
-			{"1blk", small, pick(5, 7), minutes(pickf(0.3, 2))},
-			{"2blk-punch", two, pick(4, 6), minutes(pickf(0.5, 4))},
+			{"3blk-nopunch", few, pick(4, 6), minutes(pickf(0.6, 7))},
+			{"3blk-punch", fewP, pick(4, 6), minutes(pickf(0.6, 7))},
+			{"3blk-from-3snap-chain-nopunch", chain, pick(3, 5), minutes(pickf(0.6, 6))},
+			{"3blk-from-4snap-chain-punch", chainP, pick(3, 5), minutes(pickf(0.6, 6))},
+			{"3blk-from-unreclaimed-duplicates", dups, pick(3, 5), minutes(pickf(0.4, 3))},
+			{"3blk-from-unreclaimed-duplicates-2", dups2, pick(3, 4), minutes(pickf(0.4, 3))},
+			{"1blk", small, pick(5, 7), minutes(pickf(0.25, 2))},
+			{"2blk-punch", two, pick(4, 6), minutes(pickf(0.35, 4))},
 		}
 	case "C06":
 		alpha := []string{"W", "SnapU", "SnapA", "Rm", "Mark", "ReopenP", "ReloadULM", "Revert"}
